@@ -187,6 +187,25 @@ def rows_of(ctx, f):
     return out, K.open, K.calls
 
 
+def effects_of(ctx, f):
+    """sorted canonical terms of the outermost calls the body makes on its normal paths (a call whose result only feeds
+    another listed call is not repeated) - the observable effects of a unit-returning function"""
+    T = ctx.T(f)
+    cfg = ctx.cfg(f, with_cancel=False)
+    K = Canon(ctx, f)
+    out = []
+    for bi, b in enumerate(f.blocks):
+        t = b["t"]
+        if not cfg.reachable[bi] or t["k"] != "call" or "decl" not in t["f"]:
+            continue
+        ct = T.call_term(t)
+        if ct[0] == "call" and ct[1] in _PLUMB:
+            continue
+        out.append(K.c(ct))
+    keep = [x for x in out if not any(x != y and x in y for y in out)]
+    return sorted(keep), K.open, K.calls
+
+
 def load():
     return common.load_table("pins.json")
 
@@ -222,6 +241,12 @@ def run(ctx, prop):
         f = ctx.F.body_of(fs[0]) if hasattr(ctx.F, "body_of") else fs[0]
         rows, is_open, calls = rows_of(ctx, f)
         ref = {k: set(v) for k, v in e["rows"].items()}
+        if "effects" in e:
+            eff, eo, ec = effects_of(ctx, f)
+            rows["<effects>"] = set(eff)
+            ref["<effects>"] = set(e["effects"])
+            is_open = is_open or eo
+            calls = calls | ec
         alts = [ref] + [{k: set(v) for k, v in a.items()} for a in e.get("alt", [])]
         if rows in alts:
             ctx.ob(R, key, True, "%s: %s" % (e["why"], "; ".join("%s -> %s" % (k or "always", " | ".join(sorted(v))) for k, v in sorted(rows.items())))[:400], f.loc())
